@@ -69,7 +69,7 @@ inductive Event (α : Type) where
   | ap (r : α) | int (f : Int) (t : SMType) | apo (r : α) | exp | gto | ie | de
   | sos0 | sos1 | pred (f : Int) (t : SMType) | min
   | write (o : Out)
-  deriving Repr
+  deriving Repr, DecidableEq
 
 def Event.isWrite {α : Type} : Event α → Option Out
   | .write o => some o
